@@ -63,7 +63,8 @@ def run(tier, seed):
         mc_cfgs=(['MC_Krill_q_roll.cfg', 'MC_Krill_q_life.cfg'] if tier == "quick" else ['MC_Krill_q_roll.cfg', 'MC_Krill_q_life.cfg', 'MC_Krill_roll.cfg', 'MC_Krill_life.cfg']),
         directed=(DIRECTED + kc.MULTI_DIRECTED
                   + kc.clause("child-removed-suspended-deleted",
-                              "roa-replaced", "shrink-to-nothing")),
+                              "roa-replaced", "shrink-to-nothing")
+                  + kc.TA_DIRECTED[:1]),
         theme_nums={"multi": (6, 80), "mix": (6, 60)})
 
 
